@@ -47,9 +47,10 @@ StringResult(page, p) == CASE page = "ok" -> [ok |-> TRUE, out |-> "page:ok"]
                                   [ok |-> FALSE, err |-> "runtime error", at |-> p]      \* fails at different points of the render
                            [] page = "missing" -> [ok |-> FALSE, err |-> "template not found", at |-> p]
                            [] page = "errpage" -> [ok |-> TRUE, out |-> "page:custom-error"]
+                           [] page \in {"row1", "row2"} -> [ok |-> TRUE, out |-> "page:row"]   \* data: two struct types that share a name
                            [] page = "setvar" -> [ok |-> TRUE, out |-> "page:setvar"]      \* rendered with nil data, assigns a top-level name
                            [] page = "getvar" -> [ok |-> FALSE, err |-> "identifier not found", at |-> p]   \* nil data, reads that name
-EvalResult(page) == IF page \in {"ok", "setvar"} THEN [ok |-> TRUE, out |-> "str:" \o page] ELSE [ok |-> FALSE, err |-> "runtime error", at |-> ""]
+EvalResult(page) == IF page \in {"ok", "setvar", "row1", "row2"} THEN [ok |-> TRUE, out |-> "str:" \o page] ELSE [ok |-> FALSE, err |-> "runtime error", at |-> ""]
 \* C17: which body Response writes
 BuiltinBody(c, r) == IF c.debug THEN [page |-> "builtin", shows |-> {r.err, r.at}] ELSE [page |-> "builtin", shows |-> {}]
 ResponseResult(c, r, custom) ==        \* r: result of String(name); custom: result of String(errorPage) or "none"
